@@ -119,9 +119,44 @@ pub fn tt_contents() -> Vec<(u64, TTEntry)> {
 /// happened after the cut, whichever insert site made it.
 fn tt_snapshot_at_cut() {
     if TT_OBSERVE.load(Ordering::Relaxed) {
+        if FORK_CHILD.load(Ordering::Relaxed) != 0 {
+            // a forked child lives for one cut point only: a fingerprint is enough and much cheaper
+            let (n, fp) = tt_fingerprint();
+            TT_FP_AT_CUT_LEN.store(n as u64, Ordering::Relaxed);
+            TT_FP_AT_CUT.store(fp, Ordering::Relaxed);
+            TT_FP_TAKEN.store(true, Ordering::Relaxed);
+            return;
+        }
         let snap = tt_contents();
         *TT_SNAPSHOT.lock().unwrap_or_else(|e| e.into_inner()) = Some(snap);
     }
+}
+
+static TT_FP_AT_CUT_LEN: AtomicU64 = AtomicU64::new(0);
+static TT_FP_AT_CUT: AtomicU64 = AtomicU64::new(0);
+static TT_FP_TAKEN: AtomicBool = AtomicBool::new(false);
+
+/// (number of entries, order-independent fingerprint of all (key, entry) pairs)
+pub fn tt_fingerprint() -> (usize, u64) {
+    let tt = TRANSPOSITION_TABLE
+        .read()
+        .unwrap_or_else(|e| e.into_inner());
+    let mut acc: u64 = 0;
+    for (k, e) in tt.iter() {
+        let mut h = k.rce_verif_u64() ^ 0x9E37_79B9_7F4A_7C15;
+        h = h.wrapping_mul(0xBF58_476D_1CE4_E5B9) ^ (e.score as u16 as u64) ^ (u64::from(e.depth) << 16) ^ ((e.bound as u64) << 24);
+        h ^= (u64::from(e.best_ply.start.u8()) << 32) ^ (u64::from(e.best_ply.dest.u8()) << 40);
+        h = (h ^ (h >> 31)).wrapping_mul(0x94D0_49BB_1331_11EB);
+        acc = acc.wrapping_add(h ^ (h >> 29));
+    }
+    (tt.len(), acc)
+}
+
+/// fingerprint remembered at the cut in a forked child, if any
+pub fn tt_fingerprint_at_cut() -> Option<(usize, u64)> {
+    TT_FP_TAKEN
+        .load(Ordering::Relaxed)
+        .then(|| (TT_FP_AT_CUT_LEN.load(Ordering::Relaxed) as usize, TT_FP_AT_CUT.load(Ordering::Relaxed)))
 }
 
 pub fn tt_take_snapshot() -> Option<Vec<(u64, TTEntry)>> {
